@@ -67,7 +67,7 @@ class C10(PropBase):
     id = "C10"
     lean_modules = ["SqModel.Props.C10", "SqModel.Props.C10b", "SqModel.Proofs.Dispatch"]
     extractors = ["dispatch"]
-    rule = ("histories per aircraft of DF11 (CA 0..7), BDS 1,7 reports advertising random subsets of 4,0/5,0/6,0, and data "
+    rule = ("histories per aircraft (three in eight of them begin with a data reply, so that a Comm-B frame creates the row) of DF11 (CA 0..7), BDS 1,7 reports advertising random subsets of 4,0/5,0/6,0, and data "
             "replies (DF20 and DF21) whose MB is a BDS 4,0 / 5,0 / 6,0 register generated from physical values over the full "
             "range and both signs, every plausibility boundary +-1 LSB, registers with one status bit cleared / a reserved bit "
             "set / a zero field, and random MB fields; -R and -U on/off. After each reply the 14 Comm-B-derived row fields are "
@@ -129,11 +129,18 @@ class C10(PropBase):
             ops = ["reset", gen.cfg_op(relaxed=relaxed, use_update=u, delete_after=600)]
             seq = []      # (kind, frame, mb)
             ca = rng.randrange(8)
-            seq.append(("ca", F.df11(ca, a, 0), ca))
+            # every fourth history starts with a data reply: the row is created by a Comm-B frame, no capability recorded yet
+            creating = (c % 4 == 3) or (c % 8 == 0)
+            if not creating:
+                seq.append(("ca", F.df11(ca, a, 0), ca))
             mbs = self.mbs(rng)
             rng.shuffle(mbs)
+            if creating:
+                # put a register that would decode under an open gate first (a callsign, or a valid 5,0 / 6,0 / 4,0)
+                k0 = next(i for i, (kd, _) in enumerate(mbs) if kd == ("20", "50", "60", "40", "30")[(c // 4) % 5])
+                mbs.insert(0, mbs.pop(k0))
             adv = rng.sample([9, 16, 24], rng.randrange(0, 4))
-            insert17 = rng.randrange(0, len(mbs) // 2)
+            insert17 = rng.randrange(1 if creating else 0, len(mbs) // 2)
             for i, (kind, mb) in enumerate(mbs):
                 if i == insert17:
                     m17 = F.bds17({7} | set(adv))
@@ -143,6 +150,8 @@ class C10(PropBase):
                     seq.append(("ca", F.df11(ca2, a, 0), ca2))
                 fr = F.df20(0, 0, 0, F.ac13_q1(500), mb, a) if rng.random() < 0.5 else F.df21(0, 0, 0, 0o1234, mb, a)
                 seq.append((kind, fr, mb))
+            # a reference row created by a DF11: its Comm-B fields are the blank state
+            ops += ["case blank"] + gen.seg([F.df11(0, a ^ 0x8000, 0)]) + ["dump"]
             for i, (kind, fr, mb) in enumerate(seq):
                 ops += [f"case {i}"] + gen.seg([fr]) + ["dump"]
             impl, _, model = run.execute(ops, model=driver_ok)
@@ -152,12 +161,17 @@ class C10(PropBase):
             cap = None
             adv_now = set()
             prev = None
+            if creating:
+                prev = gen.parse_dump(ci.get("blank", [])).get(a ^ 0x8000)
             for i, (kind, fr, mb) in enumerate(seq):
                 rows = gen.parse_dump(ci.get(str(i), []))
                 row = rows.get(a)
                 if row is None:
                     self.fail(rep, "row missing", {"ops": ops})
                     return
+                if creating and i == 0 and relaxed:
+                    prev = row            # with -R the creating reply may or may not be decoded (it may contribute the address only)
+                    continue
                 if kind == "ca":
                     cap = mb
                     prev = row
